@@ -1207,6 +1207,26 @@ let vv_entries (sizes_only : bool) (es : tentry list) : string =
   String.concat "," (List.map (fun e -> hex_of_bytes e.te_key ^ "=" ^ vv_show_stored sizes_only e.te_enc) es)
 let vp_cfg = ref { cf_threshold = N0; cf_max = N0; cf_level = N0; cf_index = false }
 let vp_state = ref vs0
+(* memtable arena accounting (Lsm/Arena.v): entries are klen:vlen,...; the heights are the model's to choose *)
+let ar_entries (h : n) (t : string) : ((n * n) * n) list =
+  if t = "-" then [] else
+  List.map (fun x -> match String.split_on_char ':' x with
+                     | [k; v] -> ((h, big_of_string k), big_of_string v)
+                     | _ -> failwith "bad entry") (String.split_on_char ',' t)
+let ar_cmd (args : string list) : string =
+  let one = n_of_int 1 in
+  let show = function Some x -> dec_of_n x | None -> "full" in
+  match args with
+  | ["consts"] -> Printf.sprintf "empty:%s" (dec_of_n ar_empty_n)
+  | ["bound"; t] -> Printf.sprintf "bound:%s" (dec_of_n (ar_bound aRENA_BOUND_HAS_UNUSED_TOWER (ar_entries one t)))
+  | ["add"; cap; _; t] ->
+    let c = big_of_string cap in
+    let b = ar_bound aRENA_BOUND_HAS_UNUSED_TOWER (ar_entries one t) in
+    let admitted = N.leb b c in
+    Printf.sprintf "admit:%d lo:%s hi:%s" (if admitted then 1 else 0)
+      (show (ar_mem_add c ar_empty_n (ar_entries one t))) (show (ar_mem_add c ar_empty_n (ar_entries aRENA_MAX_HEIGHT t)))
+  | _ -> "bad-command"
+
 let vp_show_state () =
   Printf.sprintf "files=%s active=%s next=%s" (vv_files !vp_state) (dec_of_n !vp_state.vs_active) (dec_of_n !vp_state.vs_next)
 let vp_cmd (args : string list) : string =
@@ -1567,6 +1587,7 @@ let () =
             | "rg" :: rest -> rg_cmd rest
             | "cp" :: rest -> cp_cmd rest
             | "vp" :: rest -> vp_cmd rest
+            | "ar" :: rest -> ar_cmd rest
             | "vl" :: rest -> vl_cmd rest
             | "lv" :: rest -> lv_cmd rest
             | "cr" :: rest -> cr_cmd rest
